@@ -302,11 +302,12 @@ class ShardCtx:
     def _degraded(self):
         return any(k.startswith("timeout") or "MemoryError" in k for k in self.col.aborted)
 
-    def enumerate(self, sub, cases, check_case, exhaustive_note=None):
-        """Run an explicitly enumerated list of cases (this shard's slice)."""
+    def enumerate(self, sub, cases, check_case, exhaustive_note=None, presliced=False):
+        """Run an explicitly enumerated list of cases (this shard's slice; ``presliced``: the iterable already
+        holds only this shard's share)."""
         n = 0
         for i, case in enumerate(cases):
-            if i % self.nshards != self.shard:
+            if not presliced and i % self.nshards != self.shard:
                 continue
             out = check_case(case)
             self.col.add(sub, case, out)
